@@ -159,6 +159,14 @@ def copy_block(info):
             self.left -= 1
             return b"x" if self.left > 0 else b""
 
+        def readinto(self, buf):
+            seen.append(len(buf))
+            self.left -= 1
+            if self.left > 0:
+                buf[0:1] = b"x"
+                return 1
+            return 0
+
         def __enter__(self):
             return self
 
@@ -169,7 +177,10 @@ def copy_block(info):
         def open(self, *a, **k):
             return F()
     import io
-    V(None).copyto("/x", io.BytesIO())
+    try:
+        V(None).copyto("/x", io.BytesIO())
+    except Exception:  # noqa  (a copy loop of another shape: the block size is then unknown, which the C20 correspondence reports)
+        pass
     return seen[0] if seen and isinstance(seen[0], int) and seen[0] > 0 else 0
 
 
